@@ -48,10 +48,17 @@ CORRUPTIONS = ["flip-quote", "flip-quote-report-data", "flip-quote-signature", "
                "wrong-root-extra-targets", "flip-x509-extra-targets"]
 
 
+# process time zones of the shards (None: as inherited, UTC in this sandbox): validity is a
+# matter of absolute time, whatever the local wall clock says
+TZS = [None, "EAST-14", "WEST+12", "Asia/Kolkata"]
+
+
 def shards(tier, seed):
     if tier == "quick":
-        return [{"seed": seed * 1000 + i, "n": 14} for i in range(16)]
-    return [{"seed": seed * 1000 + i, "n": 400} for i in range(32)]
+        return [{"seed": seed * 1000 + i, "python_O": i % 3 == 2, "tz": TZS[i % 4],
+                 "n": 14} for i in range(16)]
+    return [{"seed": seed * 1000 + i, "python_O": i % 3 == 2, "tz": TZS[i % 4],
+             "n": 400} for i in range(32)]
 
 
 def flip_hex(hx, rng, lo=0, hi=None):
@@ -189,7 +196,8 @@ def corrupt(rng, m, doc, kind):
         depth = len(m.certs)
         i = rng.randrange(depth)
         w = ["valid"] * depth
-        w[i] = "expired" if kind == "expired-link" else "not_yet"
+        w[i] = rng.choice(["expired", "expired_recently"]) if kind == "expired-link" else \
+            rng.choice(["not_yet", "valid_soon"])
         m2 = g.build(rng, depth=depth, windows=w)
         d2 = g.to_doc(m2)
         return d2, m2.root_cert, [e for e in d2["elements"] if e["type"] == "x509_pem"][i]["name"]
